@@ -192,7 +192,10 @@ def variants():
     return vs
 
 
-TOL_B = 1e-6     # "beyond round-off": max abs deviation relative to the result scale
+# "beyond round-off": max abs deviation relative to the result scale.  Calibrated: over 3 x 18 problem sets x 37
+# variants on the unchanged tree the largest deviation seen was 6.3e-11 (every solver stops on a residual norm or an
+# iteration cap, never on a knife-edge); 1e-8 leaves a factor > 100 and still exposes a solver that loses digits.
+TOL_B = 1e-8
 
 
 def compare_b(problem, res):
@@ -609,5 +612,5 @@ def main(argv):
     })
     return rep.finish(cov, assumptions=[
         "native thread pools inside XLA / ducc / BLAS are not schedulable from Python and run single-threaded where a switch exists",
-        "'beyond round-off' is read as max abs deviation <= 1e-6 x result scale on small, well-conditioned models",
+        "'beyond round-off' is read as max abs deviation <= 1e-8 x result scale (largest deviation measured on the unchanged tree: 6e-11)",
         "a fresh process on the same machine differs from the first in hash seed, addresses and cache state; only the hash seed is controllable"])
